@@ -540,25 +540,28 @@ def encode_header(h, dc=None):
 
 
 def build_image(n_entries, blocks, dc=None, version=1, dates=(0, 0, 0), free_comment="", free_dates=(0, 0, 0),
-                with_spans=False):
+                with_spans=False, gaps=None):
     """A compact, well-formed file image: live blocks in table order, free slots trailing,
     every free slot's offset = end of data.  blocks: list of dicts with type, format,
     payload (bytes), comment, cdate, mdate, adate."""
     assert len(blocks) <= n_entries
+    gaps = list(gaps or [0] * len(blocks))   # gaps[i]: unused bytes after block i (well-formed, but not compact)
     e = Enc(dc)
     enc_header(e, {"version": version, "nEntries": n_entries, "dates": list(dates)})
     off = HEADER_SIZE + ENTRY_SIZE * n_entries
-    for b in blocks:
+    for b, g in zip(blocks, gaps):
         enc_entry(e, {"type": b["type"], "format": b["format"], "offset": off, "size": len(b["payload"]),
                       "cdate": b["cdate"], "mdate": b["mdate"], "adate": b.get("adate", 0), "comment": b["comment"]})
-        off += len(b["payload"])
+        off += len(b["payload"]) + g
     for _ in range(n_entries - len(blocks)):
         enc_entry(e, {"type": 0, "format": 0, "offset": off, "size": 0, "cdate": free_dates[0], "mdate": free_dates[1],
                       "adate": free_dates[2], "comment": free_comment})
     assert len(e.buf) == HEADER_SIZE + ENTRY_SIZE * n_entries
     spans = list(e.spans)
-    for b in blocks:
+    for b, g in zip(blocks, gaps):
         e.raw(b["payload"])
+        if g:
+            e.raw(b"\xA5" * g)
     return (bytes(e.buf), spans) if with_spans else bytes(e.buf)
 
 
